@@ -32,6 +32,19 @@ type c20Replay struct {
 	Detail  string   `json:"detail"`
 }
 
+// c20RenderJSON spells the table as csvq writes a JSON file (initial ids are texts, inserted ids numbers).
+func c20RenderJSON(rows []c20Row) string {
+	var parts []string
+	for _, r := range rows {
+		id := `"` + r.id + `"`
+		if len(r.id) >= 3 {
+			id = r.id
+		}
+		parts = append(parts, fmt.Sprintf(`{"id":%s,"ver":"%s","note":"%s"}`, id, r.ver, r.note))
+	}
+	return "[" + strings.Join(parts, ",") + "]\n"
+}
+
 func c20Render(rows []c20Row) string {
 	var sb strings.Builder
 	sb.WriteString("id,ver,note\n")
@@ -89,8 +102,17 @@ func c20Case(w *core.Worker, i int) {
 		}
 	}
 	hist = append(hist, stmt{"select", "SELECT id, ver, note FROM t;"})
+	// every fourth history runs on a JSON file, read through several JSON queries (the query is an import option, not another table)
+	jsonMode := i%4 == 3
 	var hsql []string
-	for _, h := range hist {
+	for k, h := range hist {
+		if jsonMode {
+			h.sql = strings.ReplaceAll(h.sql, "t.csv", "t.json")
+			if h.kind == "select" && h.sql == "SELECT id, ver, note FROM t;" {
+				h.sql = []string{"SELECT id, ver, note FROM t;", "SELECT id, ver, note FROM JSON('{id, ver, note}', `t.json`);", "SELECT id, ver, note FROM JSON('', `t.json`) x;", "SELECT id, ver, note FROM JSON('{id, ver, note}', `t.json`) y;"}[r.Intn(4)] // queries that keep the table's shape: the first query used becomes part of what the cached table is
+			}
+			hist[k] = h
+		}
 		hsql = append(hsql, h.sql)
 	}
 	// gap sets: {}, every single gap, every pair
@@ -103,17 +125,21 @@ func c20Case(w *core.Worker, i int) {
 		}
 	}
 	for _, gaps := range gapSets {
-		c20Run(w, i, hsql, func(k int) string { return hist[k].kind }, gaps)
+		c20Run(w, i, hsql, func(k int) string { return hist[k].kind }, gaps, jsonMode)
 	}
 	if i < 4 {
 		w.Sample(map[string]interface{}{"history_of_A": hsql, "interleavings": len(gapSets)})
 	}
 }
 
-func c20Run(w *core.Worker, ci int, hsql []string, kind func(int) string, gaps []int) {
+func c20Run(w *core.Worker, ci int, hsql []string, kind func(int) string, gaps []int, jsonMode bool) {
+	fname, render := "t.csv", c20Render
+	if jsonMode {
+		fname, render = "t.json", c20RenderJSON
+	}
 	dir := core.FreshDir(w.Work, "repo")
 	disk := []c20Row{{"1", "v0", "n"}, {"2", "v0", "n"}, {"3", "v0", "n"}}
-	_ = os.WriteFile(filepath.Join(dir, "t.csv"), []byte(c20Render(disk)), 0644)
+	_ = os.WriteFile(filepath.Join(dir, fname), []byte(render(disk)), 0644)
 	_ = os.MkdirAll(filepath.Join(dir, "sub"), 0755)
 	orig := hsql
 	hsql = append([]string{}, hsql...)
@@ -153,7 +179,7 @@ func c20Run(w *core.Worker, ci int, hsql []string, kind func(int) string, gaps [
 				if res.Code != 8 {
 					viol(k, "writer-not-excluded", fmt.Sprintf("B ended with exit %d although A holds the table for update (%s)", res.Code, truncateStr(res.Stderr, 100)))
 				}
-				if b, _ := os.ReadFile(filepath.Join(dir, "t.csv")); string(b) != c20Render(disk) {
+				if b, _ := os.ReadFile(filepath.Join(dir, fname)); string(b) != render(disk) {
 					viol(k, "file-changed-under-lock", "the file changed while A holds it for update")
 				}
 			case res.Code == 0:
@@ -231,7 +257,7 @@ func c20Run(w *core.Worker, ci int, hsql []string, kind func(int) string, gaps [
 		case "commit":
 			if exclusive {
 				disk = cp(work)
-				if b, _ := os.ReadFile(filepath.Join(dir, "t.csv")); string(b) != c20Render(disk) {
+				if b, _ := os.ReadFile(filepath.Join(dir, fname)); string(b) != render(disk) {
 					viol(k, "commit-differs", fmt.Sprintf("after COMMIT the file is %q, A's copy was [%s]", truncateStr(string(b), 200), c20Text(work)))
 					return
 				}
